@@ -1,6 +1,6 @@
 From Coq Require Import NArith List Bool Arith.
 Import ListNotations.
-From WR Require Import Lib.Bits Gen.Consts Mpq.Crypt Mpq.Archive Mpq.Integrity Props.C10.
+From WR Require Import Lib.Bits Gen.Consts Mpq.Crypt Mpq.Archive Mpq.Integrity Proofs.Integrity_proofs Proofs.Crc_proofs Props.C10.
 Open Scope N_scope.
 
 
@@ -51,3 +51,7 @@ Definition pin_8 : forall (rsa_pub H : list N -> list N), (forall x, length (H x
 Definition pin_9 : forall (rsa_pub H : list N -> list N) bs sig sig' si,
     weak_verify rsa_pub H bs sig si = true -> weak_verify rsa_pub H bs sig' si = true ->
     rsa_pub (rev sig) = rsa_pub (rev sig') := C10_verified_signatures_agree.
+Definition pin_10 : forall (l1 l2 : list N) (x y : N),
+    wf_bytes l1 -> wf_bytes l2 -> x < 256 -> y < 256 -> x <> y -> crc32 (l1 ++ x :: l2) <> crc32 (l1 ++ y :: l2) := C10_crc32_single_byte.
+Definition pin_11 : forall (bs : list N) (off : nat) (v : N),
+    (off < length bs)%nat -> wf_bytes bs -> v < 256 -> nth off bs 0 <> v -> crc32 (alter bs off v) <> crc32 bs := C10_crc32_detects_alteration.
